@@ -85,9 +85,9 @@ PROPS = {
     'C01': {
         'e3_always': ['source_meaning'],
         'e3': ['source_meaning'],
-        'units': ['envaddr'],
-        'decided': 'environment addressing only: create_name_lookup_ returns a path that selects, from ANY argument tree, exactly the value the parameter pattern binds the name to under consensus destructuring (first match, left before right, (@ n sub) captures), and fails only when the pattern does not mention the name; build_tree / compute_code_shape / compute_env_shape lay the helper names out left to right, each once, with the arguments on the right; finalize_env_ keeps that shape and replaces every name leaf by what the name resolves to; lemma env_addressing: the value the shape binds a name to inside the finalized environment is that name\'s code',
-        'not_covered': ['desugaring of let / assign / lambda', 'inlining', 'renaming', 'macro expansion', 'per-leaf resolution inside finalize_env_ (defuns / constants / inlines tables, abstract)', 'start_codegen / codegen as a whole', 'that compiled code computes what the source means: bounded stand-in only (E3: 15 hand-evaluated programs x cl21/cl23)'],
+        'units': ['envaddr', 'letenv'],
+        'decided': 'environment addressing: create_name_lookup_ returns a path that selects, from ANY argument tree, exactly the value the parameter pattern binds the name to under consensus destructuring (first match, left before right, (@ n sub) captures), and fails only when the pattern does not mention the name; build_tree / compute_code_shape / compute_env_shape lay the helper names out left to right, each once, with the arguments on the right; finalize_env_ keeps that shape and replaces every name leaf by what the name resolves to; lemma env_addressing: the value the shape binds a name to inside the finalized environment is that name\'s code; create_let_env_expression (the environment handed to a let helper hoisted out of an inline function) rebuilds the argument tree so that the helper, destructuring it with the same pattern, binds every parameter, (@ name sub) captures included, to the value the inline function received (lemma rebuilt_env_binds_the_same over the destructuring spec binds); cons_bodyform',
+        'not_covered': ['the rest of let / assign / lambda desugaring (hoist_body_let_binding, generate_let_defun)', 'inlining', 'renaming', 'macro expansion', 'per-leaf resolution inside finalize_env_ (defuns / constants / inlines tables, abstract)', 'start_codegen / codegen as a whole', 'that compiled code computes what the source means: bounded stand-in only (E3: 32 hand-evaluated programs x cl21/cl23)'],
     },
     'C09': {
         'units': ['printer', 'casts'],
